@@ -182,6 +182,7 @@ namespace
             if (forced && !world.stopping && !world.stop_requested && !world.run_returned && world.accepted > static_cast<long>(world.delivered.size()))
                 world.forced_expiry_with_pending = true;
         };
+        vs::S().spurious = true;   // spurious wake-ups of condition waiters are offered as deviations (cost 1)
         trace_out = vs::run_controlled(std::move(bodies), prefix, (START_US + world.late_us) * 1000);
         vs::S().on_expiry = nullptr;
         W = nullptr;
